@@ -15,7 +15,7 @@ func init() {
 	register(&Rule{Name: "STATS-PAIR", Floor: 2,
 		Doc: "on the projection where a stats handler is installed, every path from the Begin event to a function exit of serveHTTP/serveGRPC passes exactly one End event",
 		Run: ruleStatsPair})
-	register(&Rule{Name: "STATS-ERR", Floor: 3,
+	register(&Rule{Name: "STATS-ERR", Floor: 2,
 		Doc: "End.Error is the value returned by the handler invocation",
 		Run: ruleStatsErr})
 	register(&Rule{Name: "STATS-ORDER", Floor: 6,
@@ -266,11 +266,33 @@ func ruleStatsErr(r *Run) {
 				r.bad(key, in.Pos(), "stats.End is emitted without its Error field: a failing RPC is reported as successful")
 				return
 			}
-			good := true
+			// Allowed: the handler invocation's result; and, when the End is emitted by a deferred closure that also
+			// covers the exits before/around the handler, nil (handler not run, or succeeded) and the errors the
+			// serving function itself returns on those exits. The handler's result must be among the origins.
+			top := fn
+			for top.Parent() != nil {
+				top = top.Parent()
+			}
+			returned := map[ssa.Value]bool{}
+			if top != fn {
+				ei := errResultIndex(top)
+				eachInstr(top, func(x ssa.Instruction) {
+					if rt, ok := x.(*ssa.Return); ok && ei >= 0 && ei < len(rt.Results) {
+						for _, o := range p.origins(rt.Results[ei], originOpts{}) {
+							returned[o] = true
+						}
+					}
+				})
+			}
+			good, fromHandler := true, false
 			what := ""
 			for _, o := range p.origins(stored, originOpts{}) {
 				c, ok := o.(*ssa.Call)
 				if ok && calledField(c) == hf {
+					fromHandler = true
+					continue
+				}
+				if top != fn && (isNilConst(o) || returned[o]) {
 					continue
 				}
 				good = false
@@ -279,7 +301,10 @@ func ruleStatsErr(r *Run) {
 					what = "result of " + shortName(n)
 				}
 			}
-			r.check(good, key, in.Pos(), "End.Error is the handler invocation's result",
+			if good && !fromHandler {
+				good, what = false, "never the handler's result"
+			}
+			r.check(good, key, in.Pos(), "End.Error is the handler invocation's result (or, in the deferred End, nil / the error the serving function returns before the handler ran)",
 				"End.Error is "+what+", not the error returned by the handler invocation: the stats handler sees the wrong outcome")
 		})
 	}
@@ -314,6 +339,19 @@ func ruleStatsOrder(r *Run) {
 				ev[e] = append(ev[e], in)
 			}
 		})
+		// events emitted by a closure that is only deferred happen at function exit
+		atExit := map[ssa.Instruction]bool{}
+		for _, g := range allFuncsDeep(fn) {
+			if g == fn || !closureOnlyDeferred(fn, g) {
+				continue
+			}
+			eachInstr(g, func(in ssa.Instruction) {
+				if e, _ := statsEvent(in); e != "" {
+					ev[e] = append(ev[e], in)
+					atExit[in] = true
+				}
+			})
+		}
 		if tag == nil || len(ev["InHeader"]) == 0 || len(ev["Begin"]) == 0 || len(handlerCalls) == 0 {
 			r.bad(key+"/events", fn.Pos(), "missing stats events or handler call (TagRPC:%v InHeader:%d Begin:%d handler:%d)", tag != nil, len(ev["InHeader"]), len(ev["Begin"]), len(handlerCalls))
 			continue
@@ -331,9 +369,9 @@ func ruleStatsOrder(r *Run) {
 			r.check(precedes(ev["Begin"][0], h), fmt.Sprintf("%s/Begin<handler#%d", key, i+1), h.Pos(), "Begin precedes the handler invocation", "the handler can run before the Begin event")
 		}
 		for i, e := range ev["End"] {
-			ok := false
+			ok := atExit[e] // emitted when the function returns: after any handler invocation
 			for _, h := range handlerCalls {
-				if precedes(h, e) {
+				if !atExit[e] && precedes(h, e) {
 					ok = true
 				}
 			}
